@@ -13,7 +13,7 @@ def result_switch(R, call_node):
     fid = call_node[0]
     dests = set()
     for ev in R.by_node.get(call_node, []):
-        if ev.inlined and ev.dest is not None:
+        if ev.dest is not None:
             dests.add((ev.dest[0], tuple(ev.dest[1])))
     out = {}
     # the returned value may be moved before it is matched: follow plain moves of the destination inside the caller
@@ -101,6 +101,12 @@ def check(world, tier):
     for cf_ in cfs:
         ok_nodes |= set(Rv.ret_nodes(cf_, 0))
         err_nodes |= set(Rv.ret_nodes(cf_, 1))
+    # when the call's result is matched in the closure itself, the arms of that match are the outcome (this also covers results
+    # assembled by combinators, e.g. File::create(..).map_err(..).and_then(|f| transfer(f)), whose Err may predate the transfer)
+    sw = result_switch(Rv, site)
+    if sw.get(0) and sw.get(1) and all(e_[0][0] == root for e_ in sw[0] + sw[1]):
+        ok_nodes = set(e_[1] for e_ in sw[0])
+        err_nodes = set(e_[1] for e_ in sw[1])
     a.need(len(ok_nodes), 1, "Ok outcome of the transfer")
     a.need(len(err_nodes), 1, "Err outcome of the transfer")
     creates = [e for e in Rv.events if not e.inlined and base_name(e) in ("std::fs::File::create", "std::fs::OpenOptions::open")]
